@@ -208,7 +208,10 @@ func (n *native) raceConfirm(pkg, file, key string, runs int) (bool, string) {
 	cmd.Dir = pkgDir(pkg)
 	cmd.Env = append(os.Environ(), "VERIF_REPLAY_LIST="+list, "GORACE=halt_on_error=0")
 	out, _ := cmd.CombinedOutput()
-	fs := strings.Split(strings.TrimPrefix(key, "KF-race:"), "|")
+	var fs []string
+	for _, side := range strings.Split(strings.TrimPrefix(key, "KF-race:"), "|") {
+		fs = append(fs, strings.Split(side, ">")...)
+	}
 	nat := func(f string) string {
 		// engine closure names f$2 are f.func2 natively
 		if i := strings.Index(f, "$"); i >= 0 {
@@ -463,7 +466,7 @@ func runProperty(prop string, ps *propSpec, opt options) int {
 			params[k] = v
 		}
 		h := &symex.HarnessRun{Name: hs.Name, Entry: entry, Params: params, Unwind: 16, MaxSteps: 40_000_000, MaxDecisions: 200000,
-			QueryTimeout: 60000, IncrTimeout: 4000, Preemptions: 2, RaceCheck: hs.Threads, WitnessMax: 12, Seed: opt.seed}
+			QueryTimeout: 60000, IncrTimeout: 4000, Preemptions: 2, RaceCheck: hs.Threads, ContinueAfterRace: hs.Threads, WitnessMax: 12, Seed: opt.seed}
 		if opt.tier == "thorough" {
 			h.QueryTimeout = 180000
 			h.IncrTimeout = 8000
